@@ -47,6 +47,14 @@ STYLES['types'] = ('the violation should need an argument or return value of an 
                    'None or an empty container where a value is optional')
 STYLES['numeric'] = ('the violation should need a numeric edge: zero, one, a negative number, a value that is exactly a power of two or a buffer size, a number with '
                      'leading zeros or a sign, a float where an int is usual, a very large number')
+STYLES['optimisation'] = ('the change should look like a performance optimisation - a cache or memo, a precomputed table, a fast path for the common case, avoiding a copy, '
+                          'lazy evaluation, a cheaper stdlib call - that is right for ordinary use and wrong in a corner the optimisation overlooked')
+STYLES['hardening'] = ('the change should look like security hardening or stricter input validation - an extra check, a normalisation step, a new limit, a sanitising '
+                       'replace() - that either breaks the property for input that is legal, or moves the hole somewhere else')
+STYLES['modernisation'] = ('the change should look like a modernisation / clean-up commit - a deprecated call replaced by its successor, % formatting by f-strings, os.path by pathlib, '
+                           'a loop by a comprehension or a stdlib helper, a hand-written parser by a regex or the other way round - where the replacement is subtly not equivalent')
+STYLES['feature'] = ('the change should look like a small new feature or option - a new keyword argument with a default, a new config key, support for one more argument type, '
+                     'a convenience alias - whose default path is almost, but not exactly, what it was before')
 ROUNDS = {
     'u': ['environment', 'entry_point', 'history', 'boundary'],
     'v': ['cleanup', 'state', 'size', 'history'],
@@ -55,6 +63,8 @@ ROUNDS = {
     'x': ['history', 'boundary', 'environment', 'entry_point'],
     'y': ['size', 'history', 'cleanup', 'state'],
     'z': ['types', 'numeric', 'interaction', 'encoding'],
+    # commits in disguise
+    'q': ['optimisation', 'hardening', 'modernisation', 'feature'],
 }
 
 TEMPLATE = open(os.path.join(HERE, 'tools', 'seed_agent_prompt.txt')).read()
